@@ -30,7 +30,7 @@ func TestMain(m *testing.M) { ev.Main(m, "C15") }
 // the exact pattern out (counted as discard "known:<id>") and
 // TestKnownFindings re-runs the committed reproducer.
 var openFindings = map[string]bool{
-	"F-C15-nil-objmap": true,
+	"F-C15-nil-objmap": false, // repaired in /repo (de2e3de); replay moved to fixed/
 }
 
 // ---------- (a) conversions ----------
